@@ -105,6 +105,12 @@ Definition single_driver_b (s : state) : bool :=
                             (match wsource s w with Some q => [q] | None => [] end))
           (seq 0 (nwire s)).
 
+(* the sinks of a wire are exactly the in / inout ports of primitive blocks attached to it, in creation order *)
+Definition reader_b (s : state) (w q : nat) : bool :=
+  Nat.eqb (pwire s q) w && oprim s (pparent s q) && reads (pkind s q).
+Definition sinks_exact_b (s : state) : bool :=
+  forallb (fun w => list_eqb Nat.eqb (wsinks s w) (filter (reader_b s w) (seq 0 (nport s)))) (seq 0 (nwire s)).
+
 Fixpoint nodup_keys (t : tbl) : bool :=
   match t with [] => true | (k, _) :: r => negb (tmem r k) && nodup_keys r end.
 Definition oeqb (a b : option nat) : bool :=
